@@ -76,9 +76,13 @@ def gen(rng, tier, index):
                     at_save.append(f"{rng.randint(1, node)};255;3;0;{rng.choice([11, 12])};s{per}{rng.randrange(100)}")
         mid = [f"1;1;1;0;{rng.choice([0, 24, 25])};m{per}{rng.randrange(1000)}"] if rng.random() < 0.85 else []
         ops.append({"at_save": at_save, "mid": mid, "mid_at": rng.choice([0.5, 3.0, 9.0, 9.97, 9.99])})
-    return {"cfg": {"flavour": flavour, "version": version, "fmt": rng.choice(["pickle", "json"]), "bufsize": rng.choice([64, 512, 8192]),
-                    "faults": faults, "sched": sched, "base": diskutil.state_lines(rng, version, rng.randint(3, 14))},
-            "ops": ops}
+    cfg = {"flavour": flavour, "version": version, "fmt": rng.choice(["pickle", "json"]), "bufsize": rng.choice([64, 512, 8192]),
+           "faults": faults, "sched": sched, "base": diskutil.state_lines(rng, version, rng.randint(3, 14))}
+    if flavour in ("serial", "tcp") and rng.random() < 0.3:
+        cfg["stop_at_fault"] = [rng.random(), rng.random(), rng.choice(["EIO", "ENOSPC", "EACCES"])]
+        if sched["policy"] == "serial":
+            cfg["sched"] = {"policy": "rw", "seed": rng.getrandbits(32), "p": rng.choice([0.002, 0.01, 0.05])}
+    return {"cfg": cfg, "ops": ops}
 
 
 def _vio(cls, detail, **sig):
@@ -148,6 +152,9 @@ class Watch:
         rec = self.current
         if rec is None:
             return
+        cur = self.world.sim.current
+        if cur is None or cur.role not in ("timer", "executor"):
+            return  # an operation of another save (stop()'s own): the fault script is for scheduled attempts
         if rec.get("pending") is not None and self.fs.armed:
             # the faulting operation is chosen lazily among the operations of this attempt:
             # operation kind by the first draw, (for writes) an early or a late one by the second
@@ -315,7 +322,45 @@ def _save_task_failure(gateway):
     return None
 
 
+def _final_stop_at_fault(world, gateway, watch, fs, cfg, violations, probes):
+    """The application stops the (threaded) gateway at the instant a scheduled save begins, and that save
+    hits a transient fault: stop()'s own save is then "the next attempt" - it must persist the current state."""
+    sim = world.sim
+    frac_kind, frac_pos, kind = cfg["stop_at_fault"]
+    watch.faults = {str(len(watch.attempts)): [frac_kind, frac_pos, kind if kind != "RODIR" else "EIO"]}
+    world.feed("1;1;1;0;24;last word\n")
+    ticks = [t["t"] for t in watch.ticks]
+    dt = (ticks[-1] + 10.0 - sim.now) if ticks else 0.0
+    if dt > 0:
+        sim.sleep(dt)
+    n0 = len(watch.attempts)
+    try:
+        world.stop()
+    except Exception as exc:  # pylint: disable=broad-except
+        violations.append(_vio("stop-raised", {"exc": repr(exc)}, exc=type(exc).__name__))
+        return
+    want = W.projection(gateway.sensors)
+    err, got, _ = _load_clone(world, fs, cfg)
+    world.gateway = gateway
+    world.settle()
+    new = watch.attempts[n0:]
+    if new and not new[-1]["completed"]:
+        probes["stop_while_failing_attempt"] = 1
+        probes["attempts_failed"] = probes.get("attempts_failed", 0) + 1
+        probes["attempts_after_failure"] = 1
+    if err is not None or got != want:
+        diff = [k for k in set(want) | set(got) if want.get(k) != got.get(k)]
+        violations.append(_vio("stop-lost-state", {"exc": repr(err), "nodes_differ": sorted(diff, key=repr)[:6], "when": "stop() at a failing scheduled save",
+                                                   "attempt": [{k: v for k, v in a.items() if k in ("n", "fired", "completed", "exc")} for a in new]},
+                               when="stop-at-failing-save"))
+    else:
+        probes["final_state_persisted"] = 1
+
+
 def _final(world, gateway, watch, fs, cfg, violations, probes):
+    if cfg.get("stop_at_fault") and cfg["flavour"] in ("serial", "tcp"):
+        _final_stop_at_fault(world, gateway, watch, fs, cfg, violations, probes)
+        return
     sim = world.sim
     fs.disarm()
     watch.faults = {}
